@@ -6,7 +6,7 @@ from core import alarm
 from vyxal.context import Context
 from vyxal import elements as E
 
-RULE = ("every n in 0..600 (quick) / 0..20000 (thorough) random n to 10^12 and (for factorisation / primality / squareness) semiprimes and three-prime products of primes between 3 000 and 200 000 for the monads (primality, prime factors with and without "
+RULE = ("every n in 0..600 (quick) / 0..20000 (thorough) every n to 3 000 (thorough 20 000) plus products of two / three odd primes for totient, divisors and divisor sum (factor-based reference, checked against the counting definition on 1..300 at the start of the run), random n to 10^12 and (for factorisation / primality / squareness) semiprimes and three-prime products of primes between 3 000 and 200 000 for the monads (primality, prime factors with and without "
         "multiplicity, divisors, factorial, totient, next / previous prime, divisor sum, perfect square, binary, hexadecimal, the four ranges, "
         "double / halve, square / root), every pair (n, m) <= 40 (quick) / <= 300 (thorough) for gcd, lcm and binomial. Oracle: the real element "
         "equals a naive Python reference written from the textbook definition, and the inverse pairs compose to the identity. Correspondence: "
@@ -89,9 +89,42 @@ DYADS = {
 SLOW = {"fact", "r1", "r1x", "r0", "r0x", "divisors", "totient", "divsum"}
 
 
+def _factored(n):
+    out = {}
+    for p in naive_pf(n):
+        out[p] = out.get(p, 0) + 1
+    return out
+
+
+def fast_totient(n):
+    """the multiplicative formula in integers: prod p^(k-1) (p-1) — for arguments where counting coprimes one by one is too slow.
+    It is checked against the definition on 1..300 at the start of every run (`_selfcheck`)."""
+    r = 1
+    for p, k in _factored(n).items():
+        r *= p ** (k - 1) * (p - 1)
+    return r
+
+
+def fast_divisors(n):
+    ds = [1]
+    for p, k in _factored(n).items():
+        ds = [d * p ** e for d in ds for e in range(k + 1)]
+    return sorted(ds)
+
+
+FAST = {"totient": fast_totient, "divisors": fast_divisors, "divsum": lambda n: sum(fast_divisors(n)) - n}
+
+
+def _selfcheck():
+    for n in range(1, 301):
+        assert fast_totient(n) == naive_totient(n) and fast_divisors(n) == naive_divisors(n), n
+
+
 def o_monad(inp):
     name, n = inp["f"], inp["n"]
     fn, ref, lo = MONADS[name]
+    if inp.get("fast"):
+        ref = FAST[name]
     if n < lo:
         return True, "outside the function's domain"
     with alarm(20):
@@ -167,6 +200,18 @@ def run(ctx, widen=False):
     for name in ("pf", "pfd", "isprime", "square"):
         if name in MONADS:
             cases += [{"f": name, "n": n} for n in structured]
+    # totient / divisors / divisor sum beyond the range where the definition can be counted out: every n to 3000 (thorough 20000)
+    # and products of two or three distinct odd primes below 200 (where a floating-point product formula first goes wrong: 451 = 11*41)
+    _selfcheck()
+    odd_primes = [p for p in range(3, 200) if naive_isprime(p)]
+    mids = list(range(301, 20001 if ctx.tier == "thorough" else 3001))
+    for _ in range(3000 if thorough else 500):
+        p, q, r = rng.sample(odd_primes, 3)
+        mids += [p * q, p * q * r, 2 * p * q, 4 * p * q, p * p * q]
+    mids = sorted(set(mids))
+    for name in ("totient", "divisors", "divsum"):
+        cases += [{"f": name, "n": n, "fast": True} for n in mids]
+    ctx.bump("totient / divisors / divisor sum beyond 300 (factor-based reference, self-checked against the definition)", len(mids))
     ctx.bump("structured arguments (semiprimes and products of large primes)", len(structured))
     ctx.check_many("monad", cases)
     ctx.check_many("repeat", [c for c in cases if c["n"] <= 400][::3], procs=1)
